@@ -111,9 +111,12 @@ func loadPkg(root, rel string) *Pkg {
 	}
 	sort.Strings(names)
 	for _, n := range names {
-		f, err := parser.ParseFile(fset, filepath.Join(dir, n), nil, parser.SkipObjectResolution)
+		f, err := parser.ParseFile(fset, filepath.Join(dir, n), nil, parser.SkipObjectResolution|parser.ParseComments)
 		if err != nil {
 			die("cannot parse %s: %v", filepath.Join(dir, n), err)
+		}
+		if verifOnly(f) {
+			continue // harness hook file (//go:build verif): not part of the shipped program
 		}
 		if p.name == "" || p.name == "main" {
 			p.name = f.Name.Name
@@ -187,6 +190,25 @@ func loadPkg(root, rel string) *Pkg {
 		return nil
 	}
 	return p
+}
+
+// verifOnly: the file's build constraint requires the verif tag (export_verif_*.go hook files).
+func verifOnly(f *ast.File) bool {
+	for _, cg := range f.Comments {
+		if cg.Pos() >= f.Package {
+			break
+		}
+		for _, c := range cg.List {
+			if strings.HasPrefix(c.Text, "//go:build") {
+				for _, tok := range strings.FieldsFunc(c.Text[len("//go:build"):], func(r rune) bool { return r == ' ' || r == '(' || r == ')' || r == '&' || r == '|' }) {
+					if tok == "verif" {
+						return true
+					}
+				}
+			}
+		}
+	}
+	return false
 }
 
 // World: every package of the repo that can contain a call reaching a scanned site.
